@@ -43,7 +43,8 @@ BASES = {
 }
 SCHEMAS = {k: v[0] for k, v in BASES.items()}
 PROFILES = {k: v[0].profiles(W) for k, v in BASES.items()}
-SUBS = ["none", "plain", "hidden"]
+# (row subtotal, column subtotal) options
+SUBS = [("none", "none"), ("plain", "none"), ("hidden", "none"), ("none", "plain"), ("plain", "plain")]
 
 
 def _nelems(sch, which):
@@ -115,9 +116,9 @@ def _transforms(sch, cfg):
             d["elements"] = hid
         if prune:
             d["prune"] = True
-        if which == 0 and sub != "none" and role == "cat":
+        if sub[which] != "none" and role == "cat":
             ins = subtotal("s12", [1, 2], anchor="top", sid=1)
-            if sub == "hidden":
+            if sub[which] == "hidden":
                 ins["hide"] = True
             d["insertions"] = [ins]
         if d:
@@ -200,11 +201,11 @@ def check(space, state):
             if (k not in ro) != want_absent:
                 V.append(viol("strand:visibility", "row %d: displayed=%s, hidden=%s prune=%s empty=%s"
                               % (k, k in ro, hidden, pr, empty)))
-        has_sub = sub == "plain" and rows.kind != "MR"
+        has_sub = sub[0] == "plain" and rows.kind != "MR"
         asserted += 1
         if (any(i < 0 for i in ro)) != has_sub:
             V.append(viol("strand:subtotal_visibility", "subtotal displayed=%s expected=%s (%s)"
-                          % (any(i < 0 for i in ro), has_sub, sub)))
+                          % (any(i < 0 for i in ro), has_sub, sub[0])))
         asserted += 1
         if tuple(part.shape) != (len(ro),) or part.is_empty != (len(ro) == 0):
             V.append(viol("strand:shape", "shape %r / is_empty %r vs order %r" % (part.shape, part.is_empty, ro)))
@@ -231,21 +232,25 @@ def check(space, state):
             elif not hidden and prune and emp[k] is not None and shown == emp[k]:
                 V.append(viol("visibility:prune:%s" % ("kept_empty" if shown else "pruned_nonempty"),
                               "%s %d: displayed=%s, empty (unweighted)=%s" % (("row", "column")[which], k, shown, emp[k])))
-    # subtotal rule (row subtotal present only on CAT rows)
-    if sub != "none" and sch.dims[0][0] == "cat":
-        shown = any(i < 0 for i in ro)
-        if sub == "hidden":
+    # subtotal rule: never pruned individually; gone only when pruning is enabled on the
+    # OPPOSING dimension and every opposing base vector is empty (by unweighted counts -
+    # hiding plays no part), or when the insertion itself is flagged hidden
+    for which, (order, opp_prune, opp_emp, name) in enumerate(((ro, pc, ec, "row"), (co, pr, er, "column"))):
+        if sub[which] == "none" or sch.dims[which][0] != "cat":
+            continue
+        shown = any(i < 0 for i in order)
+        if sub[which] == "hidden":
             want = False
-        elif pc and all(e is True for e in ec):
+        elif opp_prune and all(e is True for e in opp_emp):
             want = False
-        elif not pc or any(e is False for e in ec):
+        elif not opp_prune or any(e is False for e in opp_emp):
             want = True
         else:
             want = None
         asserted += 1
         if want is not None and shown != want:
-            V.append(viol("visibility:subtotal", "row subtotal displayed=%s, expected %s (%s, column prune=%s, "
-                          "column emptiness %r)" % (shown, want, sub, pc, ec)))
+            V.append(viol("visibility:subtotal:%s" % name, "%s subtotal displayed=%s, expected %s (%s, opposing prune=%s, "
+                          "opposing emptiness %r)" % (name, shown, want, sub[which], opp_prune, opp_emp)))
     asserted += 1
     if tuple(part.shape) != (len(ro), len(co)) or part.is_empty != (len(ro) == 0 or len(co) == 0):
         V.append(viol("shape", "shape %r / is_empty %r vs orders %r x %r" % (part.shape, part.is_empty, ro, co)))
